@@ -26,7 +26,7 @@ RULE = ("payload trees (nesting <= 6) holding class-tagged dicts at any depth: t
         "encoded bytes); non-trivial = the payload contains at least one class-tagged dict")
 ASSUMPTIONS = ["CPython audit events cover import/exec/open/socket/subprocess/ctypes side effects", "marshal byte-level fuzz excluded (quantifier is over payload trees)",
                "converters registered by the harness itself are exempt, as the statement says"]
-REQUIRED_REACH = ["decoded_ok", "rejected", "must_raise_checked", "audit_allowed_events", "exceptions_built", "pyro_objects_built", "mutants_decoded", "converter_exemption_checked"]
+REQUIRED_REACH = ["decoded_ok", "rejected", "must_raise_checked", "audit_allowed_events", "exceptions_built", "pyro_objects_built", "mutants_decoded", "converter_exemption_checked", "near_miss_tags_checked"]
 SHARD_TIMEOUT = {"quick": 220, "thorough": 2400}
 
 SAFE_TAGS = ["Pyro5.core.URI", "Pyro5.client.Proxy", "Pyro5.server.Daemon", "Pyro5.util.SerpentSerializer", "Pyro5.util.MarshalSerializer",
@@ -445,6 +445,32 @@ def run_shard(shard, rec):
             rec.case(("conv", name))
             if list(got[0]) != ["converted", 1]:
                 rec.violation("converter-not-applied", "%s: registered converter result %r" % (name, got), None)
+        # while that converter is registered, every OTHER tag is still a foreign tag: near misses of the registered name must be rejected
+        # like before and must not reach the application's converter
+        near = ["os.Registered", "subprocess.Registered", "Registered", "c04.sub.Registered", "x.c04.Registered", "c04.Registered2", "c04.registered",
+                "evil__pkg.Registered", "builtins.Registered", "Pyro5.core.Registered", "c04.", ".Registered", "c04.Registered.", "C04.Registered"]
+        for tag in near:
+            for name in fixture.SERIALIZERS:
+                for call in (False, True):
+                    for flagged in (False, True):
+                        node = {"__class__": tag, "v": 1}
+                        if flagged:
+                            node["__exception__"] = True
+                            node["args"] = ["a"]
+                            node["attributes"] = {}
+                        for tree in ([node], [1, {"k": [node]}]):
+                            before = len(calls)
+                            try:
+                                data = encode(name, (list(tree), {"kw": tree[-1]}) if call else list(tree), call)
+                            except Exception:
+                                continue
+                            rec.case(("near", tag, name, call, flagged, len(tree)), nontrivial=True)
+                            run_decode(env, name, data, call, True, rec, ("tree", name, call, data, True))
+                            if len(calls) != before:
+                                rec.violation("converter-called-for-unregistered-tag", "%s.%s: the converter registered for 'c04.Registered' was called for the tag %r" % (
+                                    name, "loadsCall" if call else "loads", calls[-1]), ("tree", name, call, data, True))
+                                del calls[before:]
+                            rec.count("near_miss_tags_checked")
     finally:
         SB.unregister_dict_to_class("c04.Registered")
     for name in fixture.SERIALIZERS:
